@@ -48,6 +48,9 @@ func RecordText(path, vers, tag string) []byte {
 	return []byte(fmt.Sprintf("%s %s %s\n%s %s/go.mod %s\n", path, vers, h1(tag+path+vers), path, vers, h1(tag+path+vers+"/go.mod")))
 }
 
+// logVersions: plain releases, and versions whose last characters are letters of "/go.mod".
+var logVersions = []string{"v1.0.0", "v1.1.0", "v1.2.0", "v0.0.0-20200214102310-6d5b0d4f3e5d", "v1.0.0-prod", "v1.2.0-rc.g", "v2.0.0+incompatible", "v1.0.0-mod", "v1.0.1-go.mod"}
+
 // NewLog builds a log of n records; records from index `forkAt` on carry the tag
 // (so two logs with different tags share exactly the prefix [0, forkAt)).
 func NewLog(tag string, n, forkAt int, key *Key) *Log {
@@ -58,7 +61,7 @@ func NewLog(tag string, n, forkAt int, key *Key) *Log {
 		if i >= forkAt {
 			t = tag
 		}
-		m := Mod{Path: fmt.Sprintf("example.com/m%d", i), Vers: fmt.Sprintf("v1.%d.0", i%3)}
+		m := Mod{Path: fmt.Sprintf("example.com/m%d", i), Vers: logVersions[i%len(logVersions)]}
 		m.Text = RecordText(m.Path, m.Vers, t)
 		l.Mods = append(l.Mods, m)
 		recs = append(recs, m.Text)
